@@ -70,6 +70,8 @@ def gen_program(rng, role, nobj, nops):
     while i < nops:
         r = rng.random()
         grp = sorted(rng.sample(range(nobj), min(nobj, rng.choice([1, 2, 2, 3, 4]))))
+        if rng.random() < 0.02:
+            ops.append(['ic'])
         if role == 'reader':
             if r < 0.62:
                 ops.append(['r', grp])
@@ -307,6 +309,8 @@ def worker(run, db, name, ops, nobj, explicit, stamps):
                     boundary(do_abort)
                 elif k == 'b':
                     boundary(do_begin)
+                elif k == 'ic':
+                    db._mvcc_storage.invalidateCache()   # what a storage does after a reconnect
                 elif k == 'x':
                     boundary(lambda: do_abort(False))
                     st['conn'].close()
@@ -576,7 +580,7 @@ def run_batch(args):
             if len(out['samples']) < 2:
                 ep = max(obs['epochs'], key=lambda e: len(e['reads']))
                 out['samples'].append(dict(kind=case['kind'], progs=case['progs'], seed=case['seed'],
-                                           epoch=dict(thread=ep['thread'], start='%x' % ep['start'],
+                                           epoch=dict(thread=ep['thread'], start='%x' % (ep['start'] or 0),
                                                       reads=[(r[0], '%x' % r[1], r[2]) for r in ep['reads']])))
         if verdict:
             out['bad'].append((verdict[0][0], verdict[0][1], case))
@@ -613,7 +617,7 @@ def main(argv=None):
     ck.extra['modules'] = ['Props.C02', 'Drivers.Mvcc']
     ck.run_gate(ck.extra['modules'], ['Props.C02'])
     import multiprocessing as mp
-    ncases = 20000 if ck.thorough else 300
+    ncases = 20000 if ck.thorough else 600
     nproc = 16 if ck.thorough else 4
     cases = []
     corpus_dir = os.path.join(os.path.dirname(os.path.dirname(os.path.abspath(__file__))), 'corpus', 'C02')
